@@ -8,11 +8,14 @@ import (
 	"regexp"
 	"strconv"
 	"strings"
+	"time"
 
 	"github.com/versity/versitygw/backend"
 
 	"verif/harness/internal/core"
+	"verif/harness/internal/gw"
 	"verif/harness/internal/s3c"
+	"verif/harness/internal/sched"
 	"verif/harness/internal/tlc"
 )
 
@@ -163,13 +166,133 @@ func observeRange(obj []byte, resp *s3c.Resp, allowed [][2]int64) rangeObs {
 	return o
 }
 
+// c13Gated runs the held-GET schedules on a gateway of its own (hooks gated).
+func c13Gated(c *core.Ctx, lines *[]any, meta *[]rangeLine, alt map[int]int) bool {
+	ctl, err := sched.NewController(c.Scratch)
+	if err != nil {
+		c.Inconclusive("controller: %v", err)
+		return false
+	}
+	defer ctl.Close()
+	env := MustEnv(c, false, false, func(g *gw.Config) { g.GateSock = ctl.Sock })
+	if env == nil {
+		return false
+	}
+	defer env.Close()
+	cl := env.Root
+	if r := CreateBucket(cl, "rngg"); !r.OK() {
+		c.Inconclusive("create bucket: %v", r)
+		return false
+	}
+	sizes := [][2]int{{40, 100}, {100, 40}, {5000, 12}, {12, 5000}}
+	ranges := []rangeR{{Kind: "a_", A: 10}, {Kind: "a_", A: 60}, {Kind: "ab", A: 0, B: 19}, {Kind: "ab", A: 30, B: 70}, {Kind: "_n", A: 5}, {Kind: "absent"}}
+	sites := []string{"get.stat_obj", "get.attrs"}
+	n, held := 0, 0
+	for si, sz := range sizes {
+		for ri, r := range ranges {
+			if !c.Thorough() && (si+ri+int(c.Seed))%2 == 1 {
+				continue
+			}
+			site := sites[(si+ri)%2]
+			key := fmt.Sprintf("g%d-%d", si, ri)
+			oldObj, newObj := Content("rgo-"+key, sz[0]), Content("rgn-"+key, sz[1])
+			if rr := PutObject(cl, "rngg", key, oldObj); !rr.OK() {
+				c.Inconclusive("put: %v", rr)
+				return false
+			}
+			strs, present := rangeStrings(r)
+			var hdrs []s3c.KV
+			if present {
+				hdrs = append(hdrs, s3c.KV{K: "Range", V: strs[0]})
+			}
+			ctl.Hold("rg", site)
+			done := make(chan *s3c.Resp, 1)
+			go func() {
+				done <- cl.Do(s3c.Req{Method: "GET", Path: "/rngg/" + key, Headers: hdrs, Label: "rg", Timeout: 20 * time.Second})
+			}()
+			h := ctl.WaitArrival("rg", 3*time.Second)
+			pr := PutObject(cl, "rngg", key, newObj)
+			if h != nil {
+				held++
+				h.Release()
+			}
+			ctl.Unhold("rg")
+			resp := <-done
+			if !pr.OK() {
+				c.Inconclusive("overwrite: %v", pr)
+				return false
+			}
+			// which object does the reply speak of?  Its ETag says; without one, either
+			cands := []struct {
+				obj   []byte
+				which string
+			}{{newObj, "new"}, {oldObj, "old"}}
+			if resp.Err == nil && resp.ETag() != "" {
+				if strings.Trim(resp.ETag(), "\"") == s3c.MD5Hex(oldObj) {
+					cands = cands[1:]
+				} else {
+					cands = cands[:1]
+				}
+			}
+			if resp.Err != nil {
+				if ctlr := GetObject(cl, "rngg", key); ctlr.Err != nil || ctlr.Status != 200 {
+					c.Inconclusive("GET failed: %v (control: %v)", resp.Err, ctlr)
+					return false
+				}
+			}
+			first := -1
+			for _, cd := range cands {
+				obj, size := cd.obj, int64(len(cd.obj))
+				var ob rangeObs
+				if resp.Err != nil {
+					ob = rangeObs{Status: 0, CR: []int64{}, CLen: -1, BLo: -2, BHi: -2}
+				} else {
+					var al [][2]int64
+					switch r.Kind {
+					case "a_":
+						al = [][2]int64{{r.A, size - 1}}
+					case "ab":
+						hi := r.B
+						if hi >= size {
+							hi = size - 1
+						}
+						al = [][2]int64{{r.A, hi}}
+					case "_n":
+						al = [][2]int64{{size - r.A, size - 1}}
+					}
+					ob = observeRange(obj, resp, al)
+				}
+				l := rangeLine{Size: size, R: r, Kind: "http", Gated: true, Str: fmt.Sprintf("%s (held at %s while the %d-byte object was replaced by a %d-byte one; read as a reply about the %s object)", strs[0], site, sz[0], sz[1], cd.which), O: ob}
+				*lines = append(*lines, l)
+				*meta = append(*meta, l)
+				if first < 0 {
+					first = len(*lines) - 1
+				} else {
+					alt[first] = len(*lines) - 1
+					alt[len(*lines)-1] = first
+				}
+			}
+			c.Eval(fmt.Sprintf("gated|%s|%d>%d|%s", site, sz[0], sz[1], strs[0]))
+			n++
+		}
+	}
+	c.Extra["gated_ranged_reads"] = n
+	c.Extra["gated_ranged_reads_held"] = held
+	if held == 0 {
+		c.Inconclusive("no GET ever reached a gated site (hooks not compiled in?)")
+		return false
+	}
+	return true
+}
+
 type rangeLine struct {
 	Size int64  `json:"size"`
 	R    rangeR `json:"r"`
 	Kind string `json:"kind"`
 	O    any    `json:"o"`
 	// not used by the spec:
-	Str string `json:"str"`
+	Str   string `json:"str"`
+	Gated bool   `json:"gated,omitempty"` // recorded by the held-GET schedules
 }
 
 func rangeFingerprint(l rangeLine) (string, string) {
@@ -207,7 +330,7 @@ func rangeFingerprint(l rangeLine) (string, string) {
 }
 
 func C13(c *core.Ctx, replay string) {
-	c.Rule = "TLC enumerates every (object size 0..4) x (structured Range form with numbers 0..5, an overflowing number and a huge number that still fits in 63 bits - 2^31, 2^32, 2^63-2, 2^63-1); each vector is rendered to its concrete spellings and executed (a) against backend.ParseGetObjectRange and (b) as a real GET; each observation is one trace line validated by TLC against RangeGet!Allowed. 16 clients then read random intervals of six objects with different contents side by side. Non-trivial: a vector whose Range header is present."
+	c.Rule = "TLC enumerates every (object size 0..4) x (structured Range form with numbers 0..5, an overflowing number and a huge number that still fits in 63 bits - 2^31, 2^32, 2^63-2, 2^63-1); each vector is rendered to its concrete spellings and executed (a) against backend.ParseGetObjectRange and (b) as a real GET; each observation is one trace line validated by TLC against RangeGet!Allowed. 16 clients then read random intervals of six objects with different contents side by side, and ranged reads are held (gated hook sites) after the look-up / after the attributes while the object is replaced by one of another size. Non-trivial: a vector whose Range header is present."
 	c.Assumptions = []string{"object bytes are pairwise distinct for sizes <= 4 so a body's position in the object is unambiguous",
 		"suffix ranges may be either supported (206, last n bytes) or treated as unsupported (200, whole object)",
 		"numbers that overflow int64 may be answered 416 or treated as malformed (200, whole object)"}
@@ -236,10 +359,12 @@ func C13(c *core.Ctx, replay string) {
 		vecs = append(vecs, v)
 	}
 	c.Exhaustive = true
+	replayGated := false
 	if replay != "" {
 		var rl struct {
-			Size int64  `json:"size"`
-			R    rangeR `json:"r"`
+			Size  int64  `json:"size"`
+			R     rangeR `json:"r"`
+			Gated bool   `json:"gated"`
 		}
 		if err := core.LoadReplayCase(replay, &rl); err != nil {
 			c.Inconclusive("replay: %v", err)
@@ -247,6 +372,7 @@ func C13(c *core.Ctx, replay string) {
 		}
 		vecs = []rangeVec{{Size: rl.Size, R: rl.R}}
 		c.Exhaustive = false
+		replayGated = rl.Gated
 	}
 
 	env := MustEnv(c, false, false, nil)
@@ -463,6 +589,19 @@ func C13(c *core.Ctx, replay string) {
 			return
 		}
 	}
+	// altOf: index of a line -> index of the alternative reading of the same reply (a reply
+	// without an ETag - an error, or none at all - may speak of either object: it is rejected
+	// only if it is wrong for both)
+	altOf := map[int]int{}
+	// ranged reads overlapping an overwrite by an object of ANOTHER size: the GET is held after
+	// it looked the object up (and once more after it read its attributes), the key is
+	// overwritten and acknowledged, the GET continues.  The reply names one of the two
+	// objects by its ETag; it is judged as a ranged read of THAT object
+	if replay == "" || replayGated {
+		if !c13Gated(c, &lines, &meta, altOf) {
+			return
+		}
+	}
 	c.Sample(meta[len(meta)/2])
 
 	// 2. TLC validates every observation
@@ -476,7 +615,14 @@ func C13(c *core.Ctx, replay string) {
 	c.TracesValidated += int64(len(lines))
 	c.TLCRuns = append(c.TLCRuns, tres.Summary("RangeTrace", "RangeTrace.cfg"))
 	tres.Cleanup()
+	isBad := map[int]bool{}
 	for _, i := range bad {
+		isBad[i] = true
+	}
+	for _, i := range bad {
+		if j, ok := altOf[i]; ok && (!isBad[j] || j < i) {
+			continue // right for the other object, or already reported under the first reading
+		}
 		fp, detail := rangeFingerprint(meta[i])
 		c.Violation(fp, detail, meta[i])
 	}
